@@ -157,6 +157,7 @@ Lemma judge_quiet_snap_sound : forall sn i,
 Proof.
   intros sn i H. unfold judge_quiet_snap in H.
   match type of H with (if ?c then _ else _) = _ => destruct c; [discriminate|] end.
+  match type of H with (if ?c then _ else _) = _ => destruct c; [discriminate|] end.
   destruct (state_okb (sn_trail sn) (sn_model sn) (sn_reasons sn) (sn_assum sn) (sn_lvl sn)) eqn:Es;
     cbn [negb] in H; [|discriminate].
   split; [exact (state_okb_sound _ _ _ _ _ Es)|].
